@@ -375,6 +375,10 @@ fn classify_ok_diffs(op: &Op, verdict: &Verdict, pre: &MStore, expected: &MStore
           let class = if outside { "frame-violated" } else if matches!(op, Op::OpAssign { .. }) { "op-assign-arithmetic-wrong" } else { "addressed-element-wrong" };
           let last = verdict.combo.rsplit('|').next().unwrap_or("");
           let srcf = last.split_once(':').map(|(_, b)| b).unwrap_or(last).to_string();
+          // the target itself as the vector source (`x[[2 1]] = x`): elements are read after they were
+          // overwritten — a recorded finding of its own (the suite pins the 2-D form of this behaviour)
+          let self_source = match op { Op::IdxAssign { name, e: Expr::Var(n), .. } | Op::OpAssign { name, e: Expr::Var(n), .. } => n == name, _ => false };
+          if self_source && !outside { return viol(class, format!("self-source|{}", form), exp_s, obs_s); }
           return viol(class, format!("{}|{}", form, srcf), exp_s, obs_s);
         }
         _ => {
